@@ -360,8 +360,28 @@ def do_replay(path):
         hp = os.path.join(_dir(), "replay-history.json")
         with open(hp, "w") as f:
             json.dump({"history": obj["history"]}, f)
-        print("MODEL   : Props/C04.v entry_never_panics / no_send_after_close / peer_closed_once hold only when the site table passes;")
-        print("          the recorded signature names the site class that breaks it (see docs/C04.md, 'signatures').")
+        # model side: does the inventory of the CURRENT tree contain a site the
+        # decidable condition rejects, in a function of the recorded trace?
+        try:
+            inv = gen()
+            unsafe = [inv["sites"][i] for i in inv["unsafe_client_sites"]]
+            fake = {"signature": obj.get("signature") or "", "frames": obj.get("frames") or []}
+            hit = [s for s in unsafe if explains(fake, s)]
+            thm = {"interface-conversion": "entry_never_panics (bare assertion: bare_assertion_refuted)", "index-out-of-range": "entry_never_panics (site_condition_complete witness)",
+                   "slice-bounds": "entry_never_panics", "close-of-closed-channel": "peer_closed_once (close_elsewhere_refuted)",
+                   "send-on-closed-channel": "no_send_after_close (close_elsewhere_refuted / close_before_removal_refuted)",
+                   "nil-dereference": "nil_message_never_delivered", "explicit": "policy_panic_unreachable / explicit panic guards",
+                   "data-race": "(not modelled: sampling only)", "wedge": "(not modelled: sampling only)", "hang": "(not modelled: sampling only)"}
+            cls = (obj.get("signature") or "").split("@")[0].split(":")[0]
+            print("MODEL   : theorem concerned: %s" % thm.get(cls, "entry_never_panics"))
+            if hit:
+                print("          the site table of the current tree REJECTS (model predicts a panic):")
+                for s in hit:
+                    print("            " + describe_site(s))
+            else:
+                print("          the site table of the current tree has %d rejected site(s), none in the recorded trace: the model predicts no panic here" % len(unsafe))
+        except RuntimeError as e:
+            print("MODEL   : translator failed: %s" % str(e)[-300:])
         rc, out = common.run([exe, "replay", "-history", hp, "-times", "3"], timeout=600)
         print("IMPLEMENTATION (router in a child process, 3 runs):")
         print(out)
